@@ -112,7 +112,8 @@ fn judge(r: &RunResult, c: &'static Coin, cbn: &str, field: Field, range: &[MBlo
             "csvdump" => check_csvdump(r, c, range, s, e),
             "unspentcsvdump" => check_unspent(r, c, range, s, e),
             "balances" => check_balances(r, c, range, s, e),
-            "simplestats" => check_stats(r, c, range),
+            // per-type lines (counts, shares, first occurrences) are C05/C06/C15's business
+            "simplestats" => check_stats(r, c, range).into_iter().filter(|m| !m.0.contains("transaction-types") && !m.0.contains("share-of") && !m.0.contains("per-type")).collect(),
             _ => check_opreturn(r, c, range),
         };
     }
@@ -176,7 +177,7 @@ fn judge(r: &RunResult, c: &'static Coin, cbn: &str, field: Field, range: &[MBlo
         "simplestats" => {
             // every figure except the per-type lines
             for mmm in check_stats(r, c, range) {
-                if !mmm.0.contains("transaction-types") && !mmm.0.contains("share-of") {
+                if !mmm.0.contains("transaction-types") && !mmm.0.contains("share-of") && !mmm.0.contains("per-type") {
                     v.push(mmm);
                 }
             }
